@@ -106,6 +106,10 @@ struct LazySigner { inner: rpm::signature::pgp::Signer, mode: String, expected: 
 impl rpm::signature::Signing for LazySigner {
     type Signature = Vec<u8>;
     fn sign(&self, mut data: impl std::io::Read, t: rpm::Timestamp) -> Result<Vec<u8>, rpm::Error> {
+        if self.mode == "fail" {
+            // an unreachable HSM: the signer refuses (seed C08-10: the signature header was wiped before the signer was asked)
+            return Err(rpm::Error::KeyNotFoundError { key_ref: "harness".into() });
+        }
         let want = match self.mode.as_str() {
             "none" => 0usize,
             "half" => self.expected.len() / 2,
@@ -134,11 +138,20 @@ fn observe_lazy8(mode: &str, how: &str, tokens: &[&str]) -> String {
         let key = std::fs::read("/repo/tests/assets/signing_keys/secret_ed25519.asc")?;
         let inner = rpm::signature::pgp::Signer::load_from_asc_bytes(&key)?;
         let lazy = LazySigner { inner, mode: mode.to_string(), expected };
+        let refused = mode == "fail";
         let pkg = match how {
+            "bas" if refused => {
+                // build_and_sign consumes the builder: a refusal yields no package at all
+                return Ok(match builder_from(tokens)?.build_and_sign(lazy) { Err(_) => "ok refused".to_string(), Ok(_) => "signed-by-a-refusing-signer".to_string() });
+            }
             "bas" => builder_from(tokens)?.build_and_sign(lazy)?,
             _ => {
                 let mut p = rpm::Package::parse(&mut &pb[..])?;
-                p.sign_with_timestamp(lazy, 1_600_000_000u32)?;
+                match p.sign_with_timestamp(lazy, 1_600_000_000u32) {
+                    Err(_) if refused => {}
+                    Ok(()) if refused => return Ok("signed-by-a-refusing-signer".to_string()),
+                    r => r?,
+                }
                 p
             }
         };
@@ -149,8 +162,10 @@ fn observe_lazy8(mode: &str, how: &str, tokens: &[&str]) -> String {
         let hsha = p3.metadata.signature.get_entry_data_as_string(rpm::IndexSignatureTag::RPMSIGTAG_SHA256).map(|s| s.to_string()).unwrap_or("absent".into());
         let pubkey = std::fs::read("/repo/tests/assets/signing_keys/public_ed25519.asc")?;
         let verifier = rpm::signature::pgp::Verifier::load_from_asc_bytes(&pubkey)?;
+        // after a refused signing attempt the package is the unsigned one it was: every digest still recorded and true
+        let verify = if refused { "refused".to_string() } else { p3.verify_signature(&verifier).is_ok().to_string() };
         Ok(format!("ok hsha={} hreal={} digests={} verify={}", hsha, sha256_hex(&out[o.header as usize..o.payload as usize]),
-            p3.verify_digests().is_ok(), p3.verify_signature(&verifier).is_ok()))
+            p3.verify_digests().is_ok(), verify))
     })();
     cleanup();
     match r { Ok(s) => s, Err(_) => "err".into() }
@@ -268,7 +283,7 @@ pub fn gen(ctx: &mut Ctx) {
     // signers that do not read their input to the end (seed C08-8): what is recorded must be the digest of the header all the same
     {
         let mut j = 0u64;
-        for mode in ["none", "k1", "k16", "half", "bytewise"] {
+        for mode in ["none", "k1", "k16", "half", "bytewise", "fail"] {
             for how in ["bas", "resign"] {
                 j += 1;
                 if j % sn != si { continue; }
